@@ -53,3 +53,35 @@ def _(pid: "Any", dirname: "Any", packages: "Any") -> "GProgramRes":
         forall(lambda f: implies(f in stats.programs, stats.programs[f])), stats.error is None))
     # the tool itself failed: only from the exception handler
     site_return("ProgramRes(True, stats)", "failed-record-only-on-the-exception-path", exceptional())
+
+
+# ---------------------------------------------------------------- the fault-injecting stage hands the mutation's message up
+load_module("src.modules.processor")
+declare_class("Transformer")
+declare_class("ProgramObj")        # an ast.Program: an object reference (unknown callees cannot rebind the local)
+fields("Transformer", is_transformed="Bool", error_injected="Opt[Any]")
+fields("ProgramProcessor", ncp_transformations="Any", current_transformation="Int")
+
+
+@contract("src.modules.processor.ProgramProcessor.inject_fault")
+def _(self: "ProgramProcessor", program: "Any") -> "Opt[Tuple[Any]]":
+    """nothing is reported when the mutation says it injected nothing; otherwise the mutated program is handed on together
+    with the mutation's own message (C04: error_injected is stored only together with is_transformed, never None)"""
+    use_profile("genprog")
+    local(transformer="Transformer")
+    site_return("None", "only-if-nothing-was-injected", not transformer.is_transformed)
+    site_return("(program, transformer.error_injected)", "only-if-something-was-injected", transformer.is_transformed)
+
+
+@contract("hephaestus.process_ncp_transformations")
+def _(pid: "Any", dirname: "Any", translator: "Any", proc: "Any", program: "ProgramObj", package_name: "Any") -> "Opt[Tuple[Any]]":
+    """None exactly when the processor injected nothing; otherwise (file of the ill-typed program, the injected message) --
+    the message is the one the processor handed up, and what is saved under that file is the MUTATED program"""
+    use_profile("genprog")
+    local(res="Opt[Tuple[Any]]", injected_err="Any", dst_file="Any", dst_file2="Any", program_str="Any",
+          program="ProgramObj")
+    site_return("None", "only-if-nothing-was-injected", res is None)
+    site_return("(dst_file, injected_err)", "the-message-handed-up-by-the-processor",
+                res is not None and same(injected_err, res[1]))
+    site_return("(dst_file, injected_err)", "the-mutated-program", same(program, res[0]))
+    site_call("save_program", "saves-the-mutated-program", same(arg0, program) and res is not None and same(program, res[0]))
